@@ -289,6 +289,14 @@ class MaybeFloat:
         self.value, self.when = value, when
 
 
+class NpInt:
+    """a numpy int64 SCALAR (result of numpy.sum): mixed arithmetic with a Python int converts that int to int64 first (NumPy >= 2, NEP 50) and raises
+    OverflowError when it does not fit.  Wrap-around of int64 results themselves is not modelled (listed assumption)."""
+
+    def __init__(self, value):
+        self.value = value
+
+
 class Obj:
     """record of fields (LocalBioFilter / abstract filter / Monitor)."""
 
